@@ -121,7 +121,8 @@ def run(tier):
     # symbol references and names in mnemonic position (macro calls): every key that reaches a symbol map or the macro table is lower-cased
     import rules_C10
     tables = [(k, bb, t, f, m) for k, bb, t, f, m in rules_C10.map_sites(P, "context::CommonContext", rules_C10.MAPS)] + \
-             [(k, bb, t, f, m) for k, bb, t, f, m in rules_C10.map_sites(P, "parser::Macro", ("macroses",))]
+             [(k, bb, t, f, m) for k, bb, t, f, m in rules_C10.map_sites(P, "parser::Macro", ("macroses",))] + \
+             [(k, bb, t, f, m) for k, bb, t, f, m in rules_C10.map_sites(P, "context::CommonContext", ("defines",))]
     for k in ("builder::pass0::macro_expand",):
         if k in P.body:
             for bb, t, name, tg in P.call_sites(k):
